@@ -13,6 +13,10 @@
 //   next [a]             bool(gen.next(a))                         -> next true|false|nomore
 //   value                gen.value()                               -> value v:<n>|exc|notready
 //   anext [a]            consumer coroutine: co_await gen.next(a)  -> anext ; anext=true|false|nomore (event, maybe on a later line)
+//   sub [a]              gen.next(a).subscribe(&cb): a callback awaiter (like generator_aggregator's GenCallback) is notified; the callback
+//                        looks at done()/value()                   -> sub ; sub=v:<n>|exc|false|nomore (event, maybe on a later line)
+//   subr <n> [a]         the same, and the callback re-arms itself from INSIDE the notification (re-entrantly: next(a+1).subscribe(this), ...)
+//                        up to n times, as long as it was given a value
 //   call [a]             f = gen(a)                                -> call pending|ready|nomore
 //   fwait | fget         f.wait() (blocking) | non-blocking peek   -> fwait v:<n>|exc|novalue|pending
 //   fawait | fhas        consumer coroutine: co_await f | co_await f.has_value()   -> events fawait=... / fhas=true|false
@@ -375,6 +379,46 @@ struct Case {
     std::atomic<bool> reader{false};       // a consumer coroutine awaits the current future
     bool gone = false;
 
+    // the consumer's callback awaiter (one per case; `_caller` points at it while a subscribe access is outstanding)
+    struct Cb : awaiter {
+        Case *c = nullptr;
+        int remaining = 0;
+        int arg = 0;
+        Cb() { set_resume_fn(&Cb::fn, nullptr); }
+        static suspend_point<void> fn(awaiter *me, void *) noexcept {
+            auto self = static_cast<Cb *>(me);
+            self->c->on_notify(*self);
+            return {};
+        }
+    };
+    Cb cb;
+    void issue_sub(int a) {
+        parked.store(true);
+        try {
+            if constexpr (has_arg) {
+                args.push_back(a);
+                gen->next(args.back()).subscribe(&cb);
+            } else {
+                gen->next().subscribe(&cb);
+            }
+        } catch (const no_more_values_exception &) {
+            parked.store(false);
+            stuck.store(true);
+            ev("sub=nomore");
+        }
+    }
+    // called by the generator, from inside yield_suspend::await_suspend, on whatever thread ran the body
+    void on_notify(Cb &b) {
+        parked.store(false);
+        std::string r = gen->done() ? std::string("false") : value_str();
+        ev("sub=" + r);
+        if (r.rfind("v:", 0) == 0 && b.remaining > 0) {
+            b.remaining--;
+            b.arg++;
+            issue_sub(b.arg);   // re-entrant: the next access is issued before the notification returns
+        }
+    }
+
     bool inflight() { return parked.load() || (fut && !fut->ready()); }
     bool busy() { return inflight() || stuck.load(); }
 
@@ -557,6 +601,16 @@ struct Case {
             } else if (op == "anext") {
                 parked.store(true);
                 c_anext(&arg_of(w));
+            } else if (op == "sub" || op == "subr") {
+                cb.c = this;
+                if (op == "sub") {
+                    cb.remaining = 0;
+                    cb.arg = w.size() > 1 ? atoi(w[1].c_str()) : 0;
+                } else {
+                    cb.remaining = w.size() > 1 ? atoi(w[1].c_str()) : 0;
+                    cb.arg = w.size() > 2 ? atoi(w[2].c_str()) : 0;
+                }
+                issue_sub(cb.arg);
             } else if (op == "call") {
                 try {
                     std::unique_ptr<future<int>> nf;
